@@ -8,6 +8,7 @@
 -/
 import QlibcModel.Encode.Base64
 import QlibcModel.Encode.Query
+import QlibcModel.Encode.MakewordSpec
 
 namespace Qlibc.Props.C16
 open Qlibc Qlibc.Encode Qlibc.Generated
@@ -125,6 +126,28 @@ theorem query_roundtrip (ps : List (Bytes × Bytes))
 
 /-! ### non-vacuity: the statements speak about non-trivial data -/
 example : urlEncode [97, 32, 255] = [97, 37, 50, 48, 37, 102, 102] := by decide +kernel
+/-- query_roundtrip_any_sep: `query_roundtrip` fixes the separators to `=` and `&` (they are
+    constants of `renderQuery`, not a hypothesis). The round trip holds for EVERY pair of DISTINCT
+    separator bytes that `qurl_encode` never emits and that are not NUL (`SepFree`): then neither
+    occurs inside an encoded name or value, and `qparse_queries (render ps) eq sep = ps`.
+    It does NOT hold for `%`, for literal-safe characters (letters, digits, …) or for `eq = sep`
+    (the text is split inside / between the wrong places) — those are exercised against the
+    reference reading in checks/c16.py; for the separator NUL see `makeword_nul_stop` (C17). -/
+theorem query_roundtrip_any_sep (eq sep : UInt8) (heq : SepFree eq) (hsep : SepFree sep) (hne : eq ≠ sep)
+    (ps : List (Bytes × Bytes)) (hnz : ∀ p ∈ ps, (∀ d ∈ p.1, d ≠ 0) ∧ (∀ d ∈ p.2, d ≠ 0)) :
+    parseQueries (renderQueryG eq sep ps) eq sep = .ok ps :=
+  parseQueries_renderG eq sep heq hsep hne ps hnz
+
+/-- which bytes are admissible separators: every byte the URL table does not let through literally,
+    except `%` and NUL (according to the regenerated table) -/
+theorem sep_admissible (c : UInt8) (h0 : c ≠ 0) (h37 : c ≠ 37) (ht : tbl urlCharTbl c.toNat = 0) : SepFree c :=
+  sepFree_of_table c h0 h37 ht
+
+example : SepFree 61 ∧ SepFree 38 ∧ SepFree 32 ∧ SepFree 128 ∧ SepFree 255 :=
+  ⟨sep_admissible 61 (by decide) (by decide) (by decide +kernel), sep_admissible 38 (by decide) (by decide) (by decide +kernel),
+   sep_admissible 32 (by decide) (by decide) (by decide +kernel), sep_admissible 128 (by decide) (by decide) (by decide +kernel),
+   sep_admissible 255 (by decide) (by decide) (by decide +kernel)⟩
+
 example : b64Encode [102, 111, 111, 98] = [90, 109, 57, 118, 89, 103, 61, 61] := by decide +kernel
 example : renderQuery [([97], [32]), ([98, 38], [])] = [97, 61, 37, 50, 48, 38, 98, 37, 50, 54, 61] := by
   decide +kernel
